@@ -5,7 +5,7 @@ their character codes (`_` = empty string); a separator as its character code.
 
   fix  <w> <d> <n>                      → hex("{:w.df}")  m/d of float(strip(...))
   time <pfmt> <rfmt> Y M D h m s ms     → hex(str(t))  then `Y M D h m s ms` read back, or `none`
-  csv  <geo> <idE> <idN> <idU> <idT> <sep> <h> <hdrR> <pfmt> <rfmt> <naf> <rows>
+  csv  <geo> <idE> <idN> <idU> <idT> <sep> <h> <hdrR> <pfmt> <rfmt> <naf> <rows> <srid> <names>
        rows: `x,y,z,Y,M,D,h,m,s,ms[,af…];…`
                                         → W:<hex text>|werr:<kind>   R:ok <rows>|err:<kind>
        read rows: `xm/xd,ym/yd,zm/zd,Y,M,D,h,m,s,ms;…`
@@ -105,16 +105,16 @@ def handle (cmd : String) (args : List String) : String :=
         | none => "none"
       s!"{toHex s} {back}"
     | _, _, _ => "bad-request"
-  | "csv", [geo, ie, iN, iu, it, sep, h, hr, pf, rf, naf, rows] =>
+  | "csv", [geo, ie, iN, iu, it, sep, h, hr, pf, rf, naf, rows, srid, names] =>
     match geo.toNat?, ie.toInt?, iN.toInt?, iu.toInt?, it.toInt?, sepOf? sep, h.toNat?, hr.toNat? with
     | some geo, some ie, some iN, some iu, some it, some sep, some h, some hr =>
-      match unhex? pf, unhex? rf, naf.toNat? with
-      | some pf, some rf, some naf =>
+      match unhex? pf, unhex? rf, naf.toNat?, unhex? srid, (splitTok names ',').mapM unhex? with
+      | some pf, some rf, some naf, some srid, some names =>
         match (splitTok rows ';').mapM (rowOf? naf) with
         | some rws =>
           if ie < -1 ∨ iN < -1 ∨ iu < -1 ∨ it < -1 then "bad-request" else
           let f : CsvFmt := ⟨ie, iN, iu, it, sep⟩
-          match writeToFile f (geo == 1) (tokenize pf) h naf rws with
+          match writeToFile f (geo == 1) (tokenize pf) h naf rws srid names with
           | .error e => s!"werr:{e} R:none"
           | .ok text =>
             let r := match readCsv f (tokenize rf) hr text with
@@ -122,7 +122,7 @@ def handle (cmd : String) (args : List String) : String :=
               | .error e => s!"err:{e}"
             s!"W:{toHex text} R:{r}"
         | none => "bad-request"
-      | _, _, _ => "bad-request"
+      | _, _, _, _, _ => "bad-request"
     | _, _, _, _, _, _, _, _ => "bad-request"
   | "net", [sep, h, hr, d, pd, edges] =>
     match sepOf? sep, h.toNat?, hr.toNat?, d.toNat?, pd.toInt?, (splitTok edges ';').mapM edgeOf? with
